@@ -279,6 +279,8 @@ _SIBLINGS = [("K/same_call_body0", "K/same_call_body1"), ("K/same_call_body1", "
              ("O/dir_multi", "M/batch_positive_hash"), ("O/dir_compact", "D/plain_then"),
              ("D/defines_names", "D/uses_undefined_names"), ("D/defines_names", "D/uses_skipped_def"), ("D/defines_names", "D/uses_skipped_def2"),
              ("D/sp_assign", "D/sp_read"), ("D/sp_augment", "D/sp_assign"), ("D/ra_assign", "D/explicit_regs"), ("D/sp_assign", "D/explicit_regs"),
+             ("K/same_call_body0", "E/long_expr"), ("E/deep_if", "E/long_expr"), ("E/long_expr", "E/deep_parens"), ("K/recursive_body", "E/long_expr"),
+             ("E/long_expr", "R/example/one_file_to_rule_them_all"), ("K/big_output", "K/same_call_body0"),
              ("L/unused_extra", "L/libs2"), ("L/unused_extra", "L/unused_extra#1"), ("M/prefix_names", "M/prefix_names_pragma")]
 
 
